@@ -99,7 +99,11 @@ def _splatted_literal(eng, st, call, expr, v):
     from .values import Obj, Ref
     import z3 as _z3
 
-    if not (isinstance(expr, ast.Name) and isinstance(v, Ref) and isinstance(st.get(v), Obj) and st.get(v).cls == "dictlit" and eng.module is not None):
+    from .values import Opaque as _Opaque
+
+    is_display = isinstance(v, Ref) and isinstance(st.get(v), Obj) and st.get(v).cls == "dictlit"
+    is_dict_call = isinstance(v, _Opaque) and v.tag == "dict()" and v.attrs is not None  # dict(k=v, ...): same thing
+    if not (isinstance(expr, ast.Name) and (is_display or is_dict_call) and eng.module is not None):
         return None
     owner = None
     for f in ast.walk(eng.module.tree):
@@ -110,10 +114,14 @@ def _splatted_literal(eng, st, call, expr, v):
     uses = [n for n in ast.walk(owner) if isinstance(n, ast.Name) and n.id == expr.id]
     stores = [n for n in uses if isinstance(n.ctx, (ast.Store, ast.Del))]
     splats = {id(kw.value) for c in ast.walk(owner) if isinstance(c, ast.Call) for kw in c.keywords if kw.arg is None}
-    binds = [a for a in ast.walk(owner) if isinstance(a, ast.Assign) and len(a.targets) == 1 and a.targets[0] in stores and isinstance(a.value, ast.Dict)]
+    binds = [a for a in ast.walk(owner) if isinstance(a, ast.Assign) and len(a.targets) == 1 and a.targets[0] in stores
+             and (isinstance(a.value, ast.Dict) or (isinstance(a.value, ast.Call) and isinstance(a.value.func, ast.Name) and a.value.func.id == "dict" and not a.value.args
+                                                    and all(k_.arg is not None for k_ in a.value.keywords)))]
     declared = any(isinstance(n, (ast.Global, ast.Nonlocal)) and expr.id in n.names for n in ast.walk(owner))
     if len(stores) != 1 or len(binds) != 1 or declared or any(id(n) not in splats for n in uses if n not in stores):
         return None
+    if is_dict_call:
+        return dict(v.attrs)
     items = st.get(v).attrs["items"].items
     half = len(items) // 2
     out = {}
